@@ -29,7 +29,7 @@ AddBP == /\ bounds = "none" /\ Len(bp) < MaxBP /\ ~(Len(bp) >= 1 /\ Last.hi = Un
               /\ (Len(bp) = MaxBP - 1 => hi = Unit)
               /\ bp' = Append(bp, [x |-> x, lo |-> lo, hi |-> hi])
          /\ UNCHANGED <<bounds, done>>
-PickBounds == /\ bounds = "none" /\ Complete /\ \E b \in {"tight", "padded", "short"} : bounds' = b
+PickBounds == /\ bounds = "none" /\ Complete /\ \E b \in {"tight", "padded", "short", "shortlo", "shortboth"} : bounds' = b
               /\ UNCHANGED <<bp, done>>
 Finish == bounds # "none" /\ ~done /\ done' = TRUE /\ UNCHANGED <<bp, bounds>>
 Next == AddBP \/ PickBounds \/ Finish
@@ -46,8 +46,10 @@ Inv(y) == LET i == CHOOSE j \in 1..Len(bp) : bp[j].hi >= y /\ \A k \in 1..(j - 1
           IF bp[i].lo < y \/ i = 1 THEN QI(bp[i].x)
           ELSE \* bp[i-1].hi < y <= bp[i].lo : on the ramp
                QAdd(QI(bp[i - 1].x), QMul(QN(y - bp[i - 1].hi, bp[i].lo - bp[i - 1].hi), QI(bp[i].x - bp[i - 1].x)))
-LoBound == IF bounds = "padded" THEN bp[1].x - 3 ELSE bp[1].x
-HiBound == IF bounds = "padded" THEN Last.x + 5 ELSE IF bounds = "short" THEN bp[Len(bp) - 1].x ELSE Last.x
+\* Bounds need not be the support: "padded" lies outside it, "short" / "shortlo" / "shortboth" cut into it (the interface
+\* allows approximate bounds for distributions of unbounded support: some probability lies beyond them)
+LoBound == IF bounds = "padded" THEN bp[1].x - 3 ELSE IF bounds \in {"shortlo", "shortboth"} THEN bp[2].x ELSE bp[1].x
+HiBound == IF bounds = "padded" THEN Last.x + 5 ELSE IF bounds \in {"short", "shortboth"} THEN bp[Len(bp) - 1].x ELSE Last.x
 \* y = 0: the lower bound if F is exactly 0 there, else -inf ; y = 1: the upper bound if F is exactly 1 there, else +inf
 Inv0 == IF F(QI(LoBound)) = QI(0) THEN [kind |-> "fin", v |-> LoBound] ELSE [kind |-> "-inf", v |-> 0]
 Inv1 == IF F(QI(HiBound)) = QI(1) THEN [kind |-> "fin", v |-> HiBound] ELSE [kind |-> "+inf", v |-> 0]
